@@ -316,8 +316,13 @@ type outcome struct {
 type interp struct {
 	maxSteps int
 	depth    int
-	// hook for calls without body / special functions
+	// hook, if set, is called before every instruction is executed
+	hook func(f *frame, s *istate, ins ssa.Instruction)
 }
+
+// globalHook is installed into interpreters created by execFnIv (set and
+// cleared by the caller around a run).
+var globalHook func(f *frame, s *istate, ins ssa.Instruction)
 
 func (ip *interp) get(f *frame, s *istate, v ssa.Value) absVal {
 	switch c := v.(type) {
@@ -435,6 +440,9 @@ func (ip *interp) run(f *frame, s *istate, b *ssa.BasicBlock, idx int, pred *ssa
 		}
 		for i := idx; i < len(b.Instrs); i++ {
 			*s.steps++
+			if ip.hook != nil {
+				ip.hook(f, s, b.Instrs[i])
+			}
 			if *s.steps > ip.maxSteps {
 				panic(undecided{"step budget exhausted (loop without concrete bound?)"})
 			}
@@ -1006,7 +1014,7 @@ func execFn(fn *ssa.Function, args []absVal, heap []absVal, inW int) (outs []out
 func execFnIv(fn *ssa.Function, args []absVal, heap []absVal, inW int, lo, hi uint64) (outs []outcome, events []string, reads []ptrV, undec string) {
 	steps := 0
 	st := &istate{heap: heap, inW: inW, lo: lo, hi: hi, steps: &steps, events: &events, reads: &reads}
-	ip := &interp{maxSteps: 200000}
+	ip := &interp{maxSteps: 200000, hook: globalHook}
 	f := &frame{fn: fn, env: map[ssa.Value]absVal{}}
 	for i, p := range fn.Params {
 		if i < len(args) {
